@@ -219,12 +219,15 @@ def do_replay(spec, path):
     print('replay %s: signatures=%s digest=%s (recorded %s)'
           % (path, sorted(sigs), digest, doc.get('digest')))
     if doc.get('digest') and digest != doc['digest']:
+        # the code under test differs from the tree the file was recorded on
         print('REPLAY-DIVERGED: trace digest differs from the recorded one')
         if doc['signature'] in sigs:
             print('  (the violation still reproduces)')
             print('VIOLATION property=%s replay=%s' % (spec.prop, path))
             return 1
-        return 2
+        print('not reproduced: the recorded violation does not occur on this '
+              'tree (which is not the tree the file was recorded on)')
+        return 0
     if doc['signature'] in sigs:
         print('VIOLATION property=%s replay=%s' % (spec.prop, path))
         print('  signature=%s reproduced exactly' % doc['signature'])
